@@ -88,5 +88,5 @@ BuildFrom(t, S) == IF S = {} THEN t ELSE LET r == CHOOSE x \in S : TRUE IN Build
 OrderIndependent == trie = BuildFrom(EmptyTrie, rules)
 
 \* label permutations preserve everything (symmetry reduction for the larger configurations)
-Sym == Permutations(Labels)
+\* (no SYMMETRY: labels are strings, TLC needs model values for symmetry sets)
 =============================================================================
